@@ -27,7 +27,7 @@ DeflateOk(r) == r.err = "nil" /\ r.inflateOK /\ r.selfReadOK
 InflateOk(r) == r.err = "nil" /\ r.equal
 
 HelperOk(r) ==
-    IF ~r.fin THEN r.cerr /\ r.derr                 \* non-final frames are refused
+    IF ~r.fin THEN r.cerr /\ r.derr /\ r.perr        \* non-final frames are refused, with or without RSV1
     ELSE /\ ~r.cerr /\ ~r.derr
          /\ r.crsv = r.rsv + 4 /\ r.cop = r.op /\ r.cfin = r.fin /\ r.cmasked = r.masked   \* only RSV1 and the length change
          /\ r.clenOK /\ r.dlenOK
